@@ -444,11 +444,22 @@ def extra(ctx, known):
 
 
 MANIFEST = {
-    "text": "Theorems (Coq, no axioms) about an executable Gallina model of rlib_iter: sub/supermask iterators as "
-            "from_fn(step).chain([last]) over bit patterns of width w, next_permutation transcribed index by index on list Z, "
-            "iter_permutations, the three neighbour iterators; theorems listed in evidence. The model is tied to the code on every "
-            "run: the executor collects the real iterators' output (12 integer types, Vec<i64>, grids) and Coq proves model = "
-            "implementation and implementation |= brute-force specification on every case.",
+    "text": "Theorems (Coq, no axioms, 23 pinned) about an executable Gallina model of rlib_iter: sub/supermask iterators "
+            "as from_fn(step).chain([last]) over bit patterns of width w, next_permutation transcribed index by index on "
+            "list Z, iter_permutations, the three neighbour iterators. Masks, every width w <= 128 (signed types through "
+            "their bit pattern): c15_submask_succ / c15_supermask_succ ((s-1)&x is the greatest submask below s; (s+1)|x "
+            "the least supermask above), c15_mask_stop, c15_submasks_enumeration / c15_supermasks_enumeration "
+            "(terminates; exactly the sub/supermasks, strictly decreasing to 0 / increasing to all-ones, each once), "
+            "c15_submasks_filter / c15_supermasks_filter, c15_masks_terminate, c15_submasks_count / c15_supermasks_count. "
+            "Permutations with repeated elements: c15_next_perm_is_permutation, c15_next_perm_greater, "
+            "c15_next_perm_minimal (it IS the lexicographic successor: nothing strictly between), c15_next_perm_wrap "
+            "(false exactly on non-increasing input, which is left sorted), c15_iter_permutations (starts sorted, "
+            "strictly increasing, consecutive successors, complete) with c15_sorted_listing_unique and "
+            "c15_iter_permutations_enumerated (= the directly enumerated list of distinct arrangements), finite "
+            "cross-checks c15_*_small. Neighbours: c15_neighbours_4 / _4d / _8 (the fixed offset order filtered by the "
+            "bounds; membership iff in-grid and adjacent; no repetition). c15_model_implies_spec. The model is tied to "
+            "the code on every run: the executor collects the real iterators' output (12 integer types, Vec<i64>, grids) "
+            "and Coq proves model = implementation and implementation |= brute-force specification on every case.",
     "level_note": "Trusted: Coq kernel + vm_compute; the Rust executor and the Python case printer; w-bit integers are bit patterns "
                   "in N, usize->isize casts are the identity (sizes below 2^63); theorems are about the model, the correspondence "
                   "is exhaustive for 8-bit masks / short sequences / small grids and sampled beyond.",
